@@ -89,11 +89,20 @@ type Sidecar struct {
 	Egress   []Listener
 }
 
+type DR struct {
+	Name   int
+	Ns     string
+	Host   string
+	Export []string
+	Ctime  int
+}
+
 type World struct {
 	M    Mesh
 	Svcs []Svc
 	VSs  []VS
 	SCs  []Sidecar
+	DRs  []DR
 }
 
 // ---------------------------------------------------------------- concretisation
@@ -231,6 +240,19 @@ func (s Sidecar) real() config.Config {
 	}
 }
 
+func (d DR) real() config.Config {
+	return config.Config{
+		Meta: config.Meta{GroupVersionKind: gvk.DestinationRule, Name: fmt.Sprintf("dr%d", d.Name), Namespace: d.Ns,
+			CreationTimestamp: time.Unix(int64(4000+d.Ctime), 0)},
+		Spec: &networking.DestinationRule{Host: d.Host, ExportTo: append([]string{}, d.Export...),
+			Subsets: []*networking.Subset{{Name: fmt.Sprintf("sub%d", d.Name), Labels: map[string]string{"v": fmt.Sprint(d.Name)}}}},
+	}
+}
+
+func (d DR) term() string {
+	return vlib.App("mkDr", vlib.NI(d.Name), vlib.Str(d.Ns), vlib.Str(d.Host), strs(d.Export), vlib.NI(d.Ctime))
+}
+
 func kvMap(kvs []string) map[string]string {
 	m := map[string]string{}
 	for _, kv := range kvs {
@@ -296,6 +318,11 @@ func build(w World, r *vlib.Rand) (*built, error) {
 	}
 	for _, i := range perm(r, len(w.SCs)) {
 		if _, err := store.Create(w.SCs[i].real()); err != nil {
+			return nil, err
+		}
+	}
+	for _, i := range perm(r, len(w.DRs)) {
+		if _, err := store.Create(w.DRs[i].real()); err != nil {
 			return nil, err
 		}
 	}
@@ -402,7 +429,7 @@ func (s Svc) term() string {
 
 func (m Mesh) term() string {
 	return vlib.App("mkMesh", optStrs(m.SvcDefSet, m.SvcDefault), optStrs(m.VsDefSet, m.VsDefault), optStrs(m.DrDefSet, m.DrDefault),
-		vlib.B(m.ApplySidecars), vlib.Str(m.Root), vlib.B(m.Unified), vlib.B(m.PickBest), "false")
+		vlib.B(m.ApplySidecars), vlib.Str(m.Root), vlib.B(m.Unified), vlib.B(m.PickBest))
 }
 
 func (l Listener) term() string {
